@@ -217,7 +217,8 @@ impl Gen<'_> {
     fn load(&mut self, t: Ty, n: usize) {
         let names: Vec<(String, Ty)> = (0..n).map(|_| (self.fresh(), t.clone())).collect();
         let mut prev: Option<WVal> = None;
-        for (name, _) in &names {
+        let mut alias: Option<(String, String)> = None;
+        for (idx, (name, _)) in names.iter().enumerate() {
             let mut v = self.wval(&t);
             // byte arrays that differ by the order of the native field in a 32-byte
             // little-endian chunk: equal once packed into one field element
@@ -241,12 +242,25 @@ impl Gen<'_> {
                     let last = self.witness.len() - 1;
                     self.witness[last].1 = WVal::Bytes(crate::util::hex(&a));
                     v = WVal::Bytes(crate::util::hex(&b));
+                    alias = Some((names[idx - 1].0.clone(), name.clone()));
                 }
             }
             prev = Some(v.clone());
             self.witness.push((name.clone(), v));
         }
         self.push(json!({"load": Self::ty_json(&t)}), vec![], names);
+        // the aliasing pair goes straight into a comparison: the arrays differ, whatever a
+        // packed comparison says
+        if let Some((a, b)) = alias {
+            match self.rng.below(4) {
+                0 => {
+                    let o = self.fresh();
+                    self.push(json!("is_equal"), vec![a, b], vec![(o, Ty::Bool)])
+                }
+                1 | 2 => self.push(json!("assert_equal"), vec![a, b], vec![]),
+                _ => self.push(json!("assert_not_equal"), vec![a, b], vec![]),
+            }
+        }
     }
     fn constant(&mut self, t: &Ty) -> Option<String> {
         let rng = &mut *self.rng;
